@@ -27,12 +27,12 @@ theorem rtoInitial_val : Gen.rtoInitial = 1000 := by decide
 open Rto
 
 /-- what every reachable manager of non-test code satisfies -/
-structure RInv (m : Mgr Rat) : Prop where
+structure MgrInv (m : Mgr Rat) : Prop where
   upd : m.noUpdate = false
   lo : Gen.rtoMin ≤ m.rto
   hi : m.rto ≤ m.rtoMax
 
-theorem rinv_new (rtoMax : Rat) (h : Gen.rtoMin ≤ (R.new rtoMax).rtoMax) : RInv (R.new rtoMax) := by
+theorem minv_new (rtoMax : Rat) (h : Gen.rtoMin ≤ (R.new rtoMax).rtoMax) : MgrInv (R.new rtoMax) := by
   refine ⟨rfl, ?_, ?_⟩
   · simp [R.new, rtoMin_val, rtoInitial_val]
   · have : (R.new rtoMax).rto = Gen.rtoMin := by simp [R.new, rtoMin_val, rtoInitial_val]
@@ -48,7 +48,7 @@ theorem gen_setNewRTT_rto (srtt rttvar rto rtoMax rtt : Rat) :
   simp only [Bool.false_eq_true, ↓reduceIte, rtoMin_val]
   split <;> exact ⟨_, rfl⟩
 
-theorem rinv_setNewRTT (m : Mgr Rat) (x : Rat) (h : RInv m) : RInv (R.setNewRTT m x).1 := by
+theorem minv_setNewRTT (m : Mgr Rat) (x : Rat) (h : MgrInv m) : MgrInv (R.setNewRTT m x).1 := by
   have hmm : Gen.rtoMin ≤ m.rtoMax := Rat.le_trans h.lo h.hi
   obtain ⟨v, hv⟩ := gen_setNewRTT_rto m.srtt m.rttvar m.rto m.rtoMax x
   have hrto : (R.setNewRTT m x).1.rto = gmin (gmax v Gen.rtoMin) m.rtoMax := by
@@ -57,27 +57,27 @@ theorem rinv_setNewRTT (m : Mgr Rat) (x : Rat) (h : RInv m) : RInv (R.setNewRTT 
   · rw [hrto]; exact le_gmin (le_gmax_right _ _) hmm
   · rw [hrto]; exact gmin_le_right _ _
 
-theorem rinv_reset (m : Mgr Rat) (h : RInv m) : RInv (R.reset m) := by
+theorem minv_reset (m : Mgr Rat) (h : MgrInv m) : MgrInv (R.reset m) := by
   have hmm : Gen.rtoMin ≤ m.rtoMax := Rat.le_trans h.lo h.hi
   refine ⟨h.upd, ?_, ?_⟩
   · simp [R.reset, Gen.rtoManager_reset_Rat, h.upd, rtoMin_val]
   · simpa [R.reset, Gen.rtoManager_reset_Rat, h.upd, rtoMin_val] using hmm
 
-theorem rinv_apply (m : Mgr Rat) (o : R.Op) (h : RInv m) : RInv (R.apply m o) := by
+theorem minv_apply (m : Mgr Rat) (o : R.Op) (h : MgrInv m) : MgrInv (R.apply m o) := by
   cases o with
-  | rtt x => exact rinv_setNewRTT m x h
-  | reset => exact rinv_reset m h
+  | rtt x => exact minv_setNewRTT m x h
+  | reset => exact minv_reset m h
 
 theorem apply_rtoMax (m : Mgr Rat) (o : R.Op) : (R.apply m o).rtoMax = m.rtoMax := by
   cases o with
   | rtt x => exact setNewRTT_rtoMax m x
   | reset => exact reset_rtoMax m
 
-theorem rinv_run (m : Mgr Rat) (os : List R.Op) (h : RInv m) : RInv (R.run m os) ∧ (R.run m os).rtoMax = m.rtoMax := by
+theorem minv_run (m : Mgr Rat) (os : List R.Op) (h : MgrInv m) : MgrInv (R.run m os) ∧ (R.run m os).rtoMax = m.rtoMax := by
   induction os generalizing m with
   | nil => exact ⟨h, rfl⟩
   | cons o os ih =>
-    have := ih (R.apply m o) (rinv_apply m o h)
+    have := ih (R.apply m o) (minv_apply m o h)
     exact ⟨this.1, by rw [R.run, this.2, apply_rtoMax]⟩
 
 /-! ## back-off: the generated `calculateNextTimeout` -/
